@@ -37,7 +37,7 @@ func (prop) Budget(tier string) int {
 	if tier == "thorough" {
 		return 400000
 	}
-	return 9000
+	return 16000
 }
 
 func (prop) Sweep(string) []kernel.Scenario { return nil }
